@@ -129,4 +129,15 @@ def encodeFile (sections : List SectionSpec) (xmlTemplate : String) (xmlPos : Na
   let logical := header ++ body ++ zeros (pages * 1020 - logicalLen)
   image logical
 
+/-- the logical length (header + sections + XML, before the zero fill to a whole page) of the file
+    `encodeFile` lays out; used by the driver to size a gap so that the data ends exactly on a page end -/
+def logicalLength (sections : List SectionSpec) (xmlTemplate : String) (xmlPos : Nat) : Nat :=
+  let before := sections.take xmlPos
+  let after := sections.drop xmlPos
+  let (b1, _) := placeSections before 48 [] []
+  let xmlLen := (utf8 (String.ofList (substOffsets [] xmlTemplate.toList []))).length
+  let xmlStart := 48 + b1.length
+  let (b2, _) := placeSections after (xmlStart + xmlLen + pad4 xmlLen) [] []
+  48 + b1.length + xmlLen + pad4 xmlLen + b2.length
+
 end E57.Spec
